@@ -121,12 +121,42 @@ Proof.
     + eapply IH; eauto.
 Qed.
 
+Lemma take_z_spec : forall l n, 0 <= n ->
+  take_z n l = if (Z.to_nat n <=? length l)%nat
+               then Some (firstn (Z.to_nat n) l, skipn (Z.to_nat n) l) else None.
+Proof.
+  induction l as [|b r IH]; intros n Hn; cbn [take_z].
+  - destruct (n =? 0) eqn:E.
+    + assert (n = 0) by lia. subst. reflexivity.
+    + destruct (Z.to_nat n) eqn:E2; [lia|]. reflexivity.
+  - destruct (n =? 0) eqn:E.
+    + assert (n = 0) by lia. subst. reflexivity.
+    + rewrite IH by lia. replace (Z.to_nat n) with (S (Z.to_nat (n - 1))) by lia.
+      cbn [length Nat.leb firstn skipn]. destruct (Z.to_nat (n - 1) <=? length r)%nat; reflexivity.
+Qed.
+
+Lemma read_exact_eq : forall tmo n r, read_exact tmo n r = read_exact_ref tmo n r.
+Proof.
+  intros tmo n r. unfold read_exact, read_exact_ref.
+  destruct (n <=? 0) eqn:E0; [reflexivity|]. destruct (r_dead r); [reflexivity|].
+  rewrite take_z_spec by lia.
+  set (tot := (length (r_avail r) + ev_bytes (r_evs r))%nat).
+  destruct (Z.to_nat n <=? length (r_avail r))%nat eqn:E1.
+  - apply Nat.leb_le in E1.
+    assert (Hneed : Z.to_nat (Z.min n (Z.of_nat (S tot))) = Z.to_nat n) by (unfold tot; lia).
+    rewrite Hneed. apply Nat.leb_le in E1. rewrite E1. reflexivity.
+  - apply Nat.leb_gt in E1.
+    assert (E2 : (Z.to_nat (Z.min n (Z.of_nat (S tot))) <=? length (r_avail r))%nat = false).
+    { apply Nat.leb_gt. unfold tot. lia. }
+    rewrite E2. reflexivity.
+Qed.
+
 Lemma read_exact_bytes : forall tmo n r,
   reader_bytes_ok r ->
   reader_bytes_ok (ro_rd (read_exact tmo n r)) /\
   (forall l, ro_res (read_exact tmo n r) = ROk l -> bytes_ok l).
 Proof.
-  intros tmo n r [Ha He]. unfold read_exact.
+  intros tmo n r [Ha He]. rewrite read_exact_eq. unfold read_exact_ref.
   destruct (n <=? 0).
   { cbn. split; [split; auto|]. intros l H; inversion H; constructor. }
   destruct (r_dead r).
@@ -504,7 +534,7 @@ Lemma read_exact_waits : forall tmo n r,
   0 < tmo -> evs_wf (r_evs r) ->
   Forall (fun t => 0 <= t <= tmo) (ro_waits (read_exact tmo n r)).
 Proof.
-  intros tmo n r Ht Hwf. unfold read_exact.
+  intros tmo n r Ht Hwf. rewrite read_exact_eq. unfold read_exact_ref.
   repeat match goal with |- context [if ?b then _ else _] => destruct b end; cbn; try (constructor; fail).
   apply rd_loop_waits; auto; try lia.
 Qed.
@@ -524,7 +554,7 @@ Qed.
 Lemma read_exact_evs_wf : forall tmo n r,
   evs_wf (r_evs r) -> evs_wf (r_evs (ro_rd (read_exact tmo n r))).
 Proof.
-  intros tmo n r Hwf. unfold read_exact.
+  intros tmo n r Hwf. rewrite read_exact_eq. unfold read_exact_ref.
   repeat match goal with |- context [if ?b then _ else _] => destruct b end; cbn; auto.
   apply rd_loop_evs_wf; auto.
 Qed.
@@ -619,7 +649,7 @@ Lemma read_exact_count : forall tmo n r,
   (length (ro_waits (read_exact tmo n r)) + rbytes (ro_rd (read_exact tmo n r))
    <= rbytes r + match ro_res (read_exact tmo n r) with ROk _ => 0 | _ => 1 end)%nat.
 Proof.
-  intros tmo n r Hwf. unfold read_exact.
+  intros tmo n r Hwf. rewrite read_exact_eq. unfold read_exact_ref.
   destruct (n <=? 0); [cbn; lia|].
   destruct (r_dead r); [cbn; lia|].
   set (need := Z.to_nat (Z.min n (Z.of_nat (S (length (r_avail r) + ev_bytes (r_evs r)))))).
@@ -649,7 +679,7 @@ Qed.
 
 Lemma read_exact_quiet : forall tmo n r, quiet r -> quiet (ro_rd (read_exact tmo n r)).
 Proof.
-  intros tmo n r [Hs Hf]. unfold read_exact.
+  intros tmo n r [Hs Hf]. rewrite read_exact_eq. unfold read_exact_ref.
   repeat match goal with |- context [if ?b then _ else _] => destruct b end; cbn; try (split; cbn; auto; fail).
   rewrite Hs. apply rd_loop_quiet; auto.
 Qed.
@@ -1318,7 +1348,7 @@ Lemma read_exact_mu : forall tmo n r,
   (mu (ro_rd (read_exact tmo n r)) <= mu r)%nat /\
   (0 < n -> forall l, ro_res (read_exact tmo n r) = ROk l -> (mu (ro_rd (read_exact tmo n r)) < mu r)%nat).
 Proof.
-  intros tmo n r. unfold read_exact.
+  intros tmo n r. rewrite read_exact_eq. unfold read_exact_ref.
   destruct (n <=? 0) eqn:E0; [cbn; split; [lia|intros; lia]|].
   destruct (r_dead r); [cbn; split; [lia|intros ? l H; discriminate]|].
   set (need := Z.to_nat (Z.min n (Z.of_nat (S (length (r_avail r) + ev_bytes (r_evs r)))))).
